@@ -301,6 +301,10 @@ def known_learn(st, cond):
                                 kn[oa.get_id()] = (not op_, oa)
 
 
+import symthreads
+_ThreadSwitched = symthreads._Switched
+
+
 class Engine:
     def __init__(s, M, opts=None):
         s.M = M
@@ -337,6 +341,7 @@ class Engine:
         s.nknown = 0
         s.nnl = 0
         s.nprobe = 0
+        s.nskipped = 0
 
     # ------------------------------------------------------------------ solver
     def _sync(s, pc):
@@ -571,7 +576,7 @@ class Engine:
             if name in s.M.funcs or name in s.M.decls:
                 return s.fn(name)
             raise Exception('unknown global ' + name)
-        if g['tls'] and st.threads is not None:
+        if g['tls'] and st.threads is not None and st.cur_thread != 0:
             key = (st.cur_thread, name)
             p = st.tls.get(key)
             if p is None:
@@ -586,7 +591,7 @@ class Engine:
     def _instantiate(s, st, name, g):
         size = s.M.sizeof(g['ty'])
         p = st.mem.new(max(size, 1), name, 'const' if g['const'] else 'global')
-        if not (g['tls'] and st.threads is not None):
+        if not (g['tls'] and st.threads is not None and st.cur_thread != 0):
             st.globs[name] = p
         a = st.mem.allocs[p.a]
         kind = a.kind
@@ -1019,6 +1024,8 @@ class Engine:
                 return a
         if op == 'fsub' and isinstance(b, float) and b == 0.0:
             return a
+        if op == 'fdiv' and isinstance(b, float) and b in (float('inf'), float('-inf')):
+            return 0.0          # a finite (real) numerator over an infinite divisor
         a = realv(a)
         b = realv(b)
         if op == 'fadd':
@@ -1350,6 +1357,15 @@ class Engine:
             raise Violation('memory', 'call through data pointer ' + repr(f))
         else:
             raise Inconclusive('call through symbolic function pointer')
+        if name in s.o.get('skip_functions', ()):
+            s.nskipped += 1
+            raise PathEnd()          # outside the stated bound of this family (listed in its assumptions)
+        if name == '@cmb_random_sfc64' and s.o.get('sym_draws'):
+            # C16: any 64-bit value can come out of the generator: a fresh symbol per raw draw
+            r = s.fresh(st, 'draw', 64)
+            if dst:
+                st.stack[-1].regs[dst] = r
+            return
         st_fn = s.stubs.get(name)
         if st_fn is not None:
             r = st_fn(s, st, args, ins)
@@ -1405,12 +1421,18 @@ class Engine:
                 regs[ins[1]] = s.gep(st, regs, ins[2], ev(st, regs, ins[3]), ins[4])
                 continue
             if op == 'load':
-                regs[ins[1]] = s.load(st, ev(st, regs, ins[3]), ins[2])
+                p_ = ev(st, regs, ins[3])
+                regs[ins[1]] = s.load(st, p_, ins[2])
+                if st.threads is not None and s.is_shared(st, p_):
+                    s.sched_point(st, 'load')
                 continue
             if op == 'call':
                 f = ev(st, regs, ins[3])
                 args = [ev(st, regs, a, t) for t, a in ins[4]]
-                s.call_value(st, f, args, ins[1], ins)
+                try:
+                    s.call_value(st, f, args, ins[1], ins)
+                except _ThreadSwitched:
+                    pass
                 stack = st.stack
                 continue
             if op == 'icmp':
@@ -1426,7 +1448,10 @@ class Engine:
                 regs[ins[1]] = s.cast(st, op, ins[2], ev(st, regs, ins[3], ins[2]), ins[4])
                 continue
             if op == 'store':
-                s.store(st, ev(st, regs, ins[3]), ins[1], ev(st, regs, ins[2], ins[1]))
+                p_ = ev(st, regs, ins[3])
+                s.store(st, p_, ins[1], ev(st, regs, ins[2], ins[1]))
+                if st.threads is not None and s.is_shared(st, p_):
+                    s.sched_point(st, 'store')
                 continue
             if op == 'phi':
                 blkins = fr.ins
@@ -1616,6 +1641,15 @@ class Engine:
             known_learn(st, ncond)
             return ins[3]
         raise PathEnd()
+
+    def is_shared(s, st, p):
+        if not isinstance(p, Ptr):
+            return False
+        a = st.mem.allocs.get(p.a)
+        if a is None or a.kind != 'global':
+            return False
+        g = s.M.globals.get(a.tag)
+        return g is not None and not g['tls']
 
     def sched_point(s, st, why):
         if st.threads is not None:
@@ -1945,6 +1979,8 @@ def _pow(s, st, a, ins):
             return float(math.pow(x, y))
         except (ValueError, OverflowError):
             return float('nan')
+    if s.o.get('libm_uf'):
+        return _libm_unsupported('pow')(s, st, a, ins)
     raise Inconclusive('libm pow on a symbolic argument')
 
 
@@ -1960,7 +1996,25 @@ def _libm_unsupported(name):
             if fn is None:
                 fn = z3.Function('libm_' + name, *([z3.RealSort()] * (len(a) + 1)))
                 _UF[key] = fn
-            return fn(*[realv(x) for x in a])
+            args = [realv(x) for x in a]
+            r = fn(*args)
+            x = args[0]
+            if name == 'exp':
+                s.assume(st, r > 0)
+            elif name == 'log':
+                ok, m = s.may(st, x <= 0)
+                if ok:
+                    s.report(st, 'fp', 'log of a value that can be zero or negative (-inf / NaN)', x <= 0, m)
+                    okn, mn = s.may(st, x > 0)
+                    if not okn:
+                        raise PathEnd()
+                    s.assume(st, x > 0, mn)
+                s.assume(st, z3.And(z3.Implies(x == 1, r == 0), z3.Implies(x < 1, r < 0), z3.Implies(x > 1, r > 0)))
+            elif name == 'pow' and len(args) == 2:
+                y = args[1]
+                s.assume(st, z3.And(z3.Implies(x > 0, r > 0), z3.Implies(z3.And(x == 0, y > 0), r == 0), z3.Implies(x >= 0, r >= 0),
+                                    z3.Implies(z3.And(x > 0, x < 1, y > 0), r < 1), z3.Implies(z3.And(x > 1, y > 0), r > 1), z3.Implies(x == 1, r == 1)))
+            return r
         if all(isinstance(x, (float, int)) for x in a):
             fn = getattr(math, name)
             try:
@@ -2031,6 +2085,26 @@ def _rd(s, st, a, ins):
 @builtin('@get_nprocs')
 def _nprocs(s, st, a, ins):
     return s.o.get('nprocs', 2)
+
+
+@builtin('@pthread_create')
+def _pcreate(s, st, a, ins):
+    return symthreads.pthread_create(s, st, a, ins)
+
+
+@builtin('@pthread_join')
+def _pjoin(s, st, a, ins):
+    return symthreads.pthread_join(s, st, a, ins)
+
+
+@builtin('@pthread_exit')
+def _pexit(s, st, a, ins):
+    return symthreads.pthread_exit(s, st, a, ins)
+
+
+@builtin('@llvm.x86.sse.ldmxcsr', '@llvm.x86.sse.stmxcsr')
+def _mxcsr(s, st, a, ins):
+    return None
 
 
 @builtin('@pthread_self')
